@@ -27,7 +27,7 @@ def budget(tier):
 
 @st.composite
 def _case(draw):
-    prof = S.profile(max_methods=4, max_services=2, p_http=0.9, p_sig=0.15, p_routing=0.05, p_paged=0.05, p_lro=0.05, p_stream=0.2,
+    prof = S.profile(max_methods=4, max_services=2, p_http=0.65, p_sig=0.15, p_routing=0.05, p_paged=0.05, p_lro=0.05, p_stream=0.2,
                      p_dep_io=0.0, p_comment=0.02, max_messages=3, max_fields=3, max_files=1, p_additional=0.0, p_map=0.0, repeated_messages=False,
                      p_dep_type=0.0, p_reserved_field=0.0)
     api = draw(S.apis(prof))
@@ -104,6 +104,11 @@ def _case(draw):
     opts = {"params": ["autogen-snippets=False", f"transport={t}"], "snippets": False, "transport": t,
             "service_yaml": {"type": "google.api.Service", "config_version": 3, "name": host,
                              "publishing": {"method_settings": settings}}}
+    if t == "grpc" and draw(st.integers(0, 1)) == 0:
+        # the alternative (ads) template set has its own client template (sync client only)
+        opts["params"] += ["python-gapic-templates=ads-templates", "old-naming"]
+        opts["old_naming"] = True
+        opts["ads"] = True
     return {"api": api, "options": opts, "kind": kind, "settings": settings, "inner": {"seed": draw(st.integers(0, 2 ** 31)), "n": 6}}
 
 
